@@ -2161,10 +2161,10 @@ func (in *Interp) chanRecv(fr *frame, c Value, et types.Type, commaOk bool) Valu
 		in.unsupported("receive on %T/nil channel", c)
 	}
 	if len(ch.buf) == 0 {
-		if ch.closed {
+		if ch.closed || ch.timer {
 			z := in.zero(et)
 			if commaOk {
-				return Tuple{z, in.tb.fls}
+				return Tuple{z, in.tb.Bool(ch.timer)}
 			}
 			return z
 		}
@@ -2192,7 +2192,7 @@ func (in *Interp) selectStmt(fr *frame, instr *ssa.Select) Value {
 			continue
 		}
 		if st.Dir == types.RecvOnly {
-			if len(ch.buf) > 0 || ch.closed {
+			if len(ch.buf) > 0 || ch.closed || ch.timer {
 				ready = append(ready, i)
 			}
 		} else {
